@@ -25,7 +25,7 @@ examine = accept.examine_accept
 
 def plan(tier, seed):
     if tier == "quick":
-        return [{"n": 400} for _ in range(16)]
+        return [{"n": 800} for _ in range(16)]
     return [{"n": 15000} for _ in range(16)]
 
 
